@@ -638,6 +638,8 @@ def rule_group_verdicts(ctx, rep):
         for cfg in (t0cfg, t1cfg):
             t = w.new(TXN)
             fnobj = _leaf_function(ctx, cfg["marks"], cfg.get("two_leaves", False), cfg.get("second"))
+            if cfg["kind"] == "logic_sig_unconfigured":
+                it.assign_attr(t, "has_logic_sig", True)      # signed by a logic signature that is not part of the configuration
             if cfg["kind"] in ("logic_sig", "both"):
                 it.assign_attr(t, "has_logic_sig", True)
                 it.assign_attr(t, "logic_sig", fnobj)
@@ -663,11 +665,19 @@ def rule_group_verdicts(ctx, rep):
         except PyRaise as e:
             return f"RAISES {e.exc} {e.where}"
         vuln = set()
+        named = {}
         for o in out:
-            for t in w.getattr(o, "transactions"):
+            for t, fns in w.getattr(o, "transactions").items():
                 vuln.add("T0" if t is txs[0] else "T1")
+                roles = []
+                for fx in fns:
+                    roles.append("logic_sig" if fx is w.getattr(t, "logic_sig") else "application" if fx is w.getattr(t, "application") else "other")
+                named["T0" if t is txs[0] else "T1"] = roles
+        last_named.clear()
+        last_named.update(named)
         return vuln
 
+    last_named = {}
     blank = {"kind": "logic_sig", "marks": {}}
     # rows: (name, detector, t0, t1, relation, types, expected vulnerable set restricted to T0)
     rows = []
@@ -753,6 +763,28 @@ def rule_group_verdicts(ctx, rep):
     for name, det, t0, want in elig:
         got = run(det, t0 | {"abs": None}, blank | {"marks": {"self": True}}, "none")
         rep.check((got & {"T0"}) == want if isinstance(got, set) else False, rule, name, where, got, sorted(want))
+    # another member's *application* clears a transaction just as its logic signature does
+    app_rows = [("other's application validates absolute index 1", {"kind": "application", "marks": {"abs": {1: True}}}, 1, "none", set()),
+                ("other's application validates absolute index 2 (not ours)", {"kind": "application", "marks": {"abs": {2: True}}}, 1, "none", {"T0"}),
+                ("other's application validates offset +1, configured", {"kind": "application", "marks": {"rel": {1: True}}}, None, "t1_sees_t0_at_+1", set()),
+                ("other's application validates offset +1, not configured", {"kind": "application", "marks": {"rel": {1: True}}}, None, "none", {"T0"}),
+                ("other has both contracts, its application validates absolute index 1", {"kind": "both", "marks": {}, "app_marks": {"abs": {1: True}}}, 1, "none", set()),
+                ("other has both contracts, its application validates offset -2", {"kind": "both", "marks": {}, "app_marks": {"rel": {-2: True}}}, None, "t1_sees_t0_at_-2", set()),
+                ("other has both contracts, its logic signature validates absolute index 1", {"kind": "both", "marks": {"abs": {1: True}}, "app_marks": {}}, 1, "none", set())]
+    for name, t1, absidx, rel, want in app_rows:
+        got = run(stateless, {"kind": "logic_sig", "marks": {"self": False, "indices": [0, 1]}, "abs": absidx}, t1 | {"abs": None}, rel)
+        n += 1
+        rep.check((got & {"T0"}) == want if isinstance(got, set) else False, rule, name, where, sorted(got) if isinstance(got, set) else got, sorted(want),
+                  why="a validation made by another member's application (or logic signature) is not credited")
+    # which function is named for a vulnerable transaction: the logic signature for stateless detectors, the application for stateful ones
+    for name, det, t0, want_roles in (("stateless detector names the logic signature", stateless, {"kind": "both", "marks": {}, "app_marks": {}}, ["logic_sig"]),
+                                      ("stateful detector names the application", stateful, {"kind": "both", "marks": {}, "app_marks": {}}, ["application"]),
+                                      ("stateful detector, application only", stateful, {"kind": "application", "marks": {}}, ["application"]),
+                                      ("stateless detector, logic signature not configured", stateless, {"kind": "logic_sig_unconfigured", "marks": {}}, [])):
+        got = run(det, t0 | {"abs": None}, blank | {"marks": {"self": True}}, "none")
+        rep.check(isinstance(got, set) and "T0" in got and last_named.get("T0") == want_roles, rule, name, where,
+                  {"vulnerable": sorted(got) if isinstance(got, set) else got, "named": last_named.get("T0")}, {"vulnerable": ["T0"], "named": want_roles},
+                  why="the report names the wrong contract function for the vulnerable transaction")
     # transaction-type filter as the two detectors that use it pass it
     for dname, label in (("can-close-account", "Pay"), ("can-close-asset", "Axfer")):
         d = dets[dname]
@@ -988,7 +1020,13 @@ def rule_group_config(ctx, rep):
            "relative index to an unknown transaction": [dict(base[0], relative_indexes=[{"other_txn_id": "nope", "offset": 1}])],
            "application given as logic sig": [{"txn_id": "X", "txn_type": "appl", "logic_sig": call("APP")}],
            "logic sig given as application": [{"txn_id": "X", "txn_type": "appl", "application": call("A")}],
-           "unknown function": [{"txn_id": "X", "txn_type": "pay", "logic_sig": call("A", "nope")}]}
+           "unknown function": [{"txn_id": "X", "txn_type": "pay", "logic_sig": call("A", "nope")}],
+           "unknown contract": [{"txn_id": "X", "txn_type": "pay", "logic_sig": call("NOPE")}],
+           "unknown transaction type": [{"txn_id": "X", "txn_type": "payment", "logic_sig": call("A")}],
+           "transaction without an id": [{"txn_type": "pay", "logic_sig": call("A")}],
+           "transaction without a type": [{"txn_id": "X", "logic_sig": call("A")}],
+           "function call without a function": [{"txn_id": "X", "txn_type": "pay", "logic_sig": {"contract": "A"}}],
+           "relative index without an offset": [dict(base[0]), {"txn_id": "Y", "txn_type": "pay", "logic_sig": call("B"), "relative_indexes": [{"other_txn_id": "T0"}]}]}
     for name, txns in bad.items():
         try:
             w.call(init, w.call(from_yaml, cfg(txns)))
@@ -996,6 +1034,24 @@ def rule_group_config(ctx, rep):
         except PyRaise as e:
             got = f"rejected ({e.exc})"
         rep.check(got.startswith("rejected"), rule, f"invalid configuration rejected: {name}", where, got, "rejected")
+    # malformed documents (missing sections, wrong contract type, bad block ids) are rejected with the tool's own error
+    good = cfg(base)
+    docs = {"no name": {k: v for k, v in good.items() if k != "name"}, "no contracts": {k: v for k, v in good.items() if k != "contracts"},
+            "no groups": {k: v for k, v in good.items() if k != "groups"},
+            "contract without a file": dict(good, contracts=[{k: v for k, v in good["contracts"][0].items() if k != "file_path"}] + good["contracts"][1:]),
+            "contract of an unknown type": dict(good, contracts=[dict(good["contracts"][0], type="Library")] + good["contracts"][1:]),
+            "function without a dispatch path": dict(good, contracts=[dict(good["contracts"][0], functions=[{"name": "main"}])] + good["contracts"][1:]),
+            "dispatch path with a bad block id": dict(good, contracts=[dict(good["contracts"][0], functions=[{"name": "main", "dispatch_path": ["0"]}])] + good["contracts"][1:]),
+            "dispatch path that is not a path": dict(good, contracts=[dict(good["contracts"][0], functions=[{"name": "main", "dispatch_path": ["B0", "B7"]}])] + good["contracts"][1:]),
+            "group without an operation name": dict(good, groups=[{"transactions": base}])}
+    for name, doc in docs.items():
+        try:
+            w.call(init, w.call(from_yaml, doc))
+            got = "accepted"
+        except PyRaise as e:
+            got = f"rejected ({e.exc})" if isinstance(e.value, Obj) else f"internal error ({e.exc})"
+        rep.check(got.startswith("rejected"), rule, f"malformed document rejected: {name}", where, got, "rejected with one of the tool's own exceptions",
+                  why="a malformed configuration is accepted or ends with an internal error")
 
 
 def rule_absolute_index_access(ctx, rep):
